@@ -127,9 +127,24 @@ def space_B():
     return list(dict.fromkeys(bases)), list(dict.fromkeys(refs))
 
 
+def space_C():
+    """references of exactly 3 segments over the stack-relevant kinds (climb above the root, then an empty segment, ...)."""
+    kinds = ["..", ".", "", "a"]
+    bases = [sc + au + p + "?q=1#f" for sc, au in (("http:", "//h.com"), ("", "//h.com"), ("", ""))
+             for p in ["/", "/b", "/b/c", "/b/c/", "/b//c"] + ([""] if au else [])]
+    refs = []
+    for t in itertools.product(kinds, repeat=3):
+        refs.append("/".join(t))
+        refs.append("/" + "/".join(t))
+    refs = [r for r in dict.fromkeys(refs) if not r.startswith("//")]
+    return bases, refs
+
+
 def task_pairs(which, quick, part, nparts):
     acc = Acc(ID, impl.backend)
-    if which == "A":
+    if which == "C":
+        bases, refs = space_C()
+    elif which == "A":
         bases, refs = space_A(quick, False)
     elif which == "A2":
         bases, refs = space_A(quick, True)
@@ -158,9 +173,10 @@ def plan(ctx):
     tasks = []
     n = 16 if quick else 48
     for b in BACKENDS:
-        for which in (("A", "A2", "B") if quick else ("A", "B")):
+        for which in (("A", "A2", "B", "C") if quick else ("A", "B", "C")):
             for part in range(n):
                 tasks.append(("checks.C14", "task_pairs", (which, quick, part, n), b, which))
     ctx.notes["bounds"] = {"segment_alphabet": SEG, "space_A": "base paths <= %s segs x ref paths <= %s segs" % (("2 / 1", "1 / 2") if quick else (2, 2)),
-                           "space_B": "schemes x authorities x query x fragment, paths <= 1 seg"}
+                           "space_B": "schemes x authorities x query x fragment, paths <= 1 seg",
+                           "space_C": "bases of depth 0-2 x all references of exactly 3 segments over {'..','.','','a'}, rooted and rootless"}
     return tasks
